@@ -490,3 +490,30 @@ Theorem run_program_big_equiv d p e max_cost r :
   (exists fuel, run_program d fuel p e max_cost = Ok r) <->
   (exists fuel, run_program_big d fuel p e max_cost = Ok r).
 Proof. unfold run_program, run_program_big. apply run_big_equiv. Qed.
+
+(* the guard theorem read off the big-step evaluator: whatever the body does, a guard that
+   completes yields nil, and unless it was skipped-as-unknown or is cost-exempt the cost
+   afterwards is the cost before plus the declared cost *)
+Lemma guard_big_spec d M ev gs cost args c v : guard_big d M ev gs cost args = Ok (c, v) ->
+  v = nil_s /\
+  exists fa declared, first args = Ok fa /\
+    uint_atom 8 (f_canonical_ints (d_flags d)) fa = Ok declared /\
+    (match parse_softfork_arguments d args with
+     | Ok (ext, _, _) => ext <> OsPreHardFork
+     | Err _ => True
+     end -> c = cost + declared).
+Proof.
+  unfold guard_big. destruct (first args) as [fa|]; cbn [bind]; [|discriminate].
+  destruct (uint_atom 8 _ fa) as [declared|] eqn:Eu; cbn [bind]; [|discriminate].
+  destruct (_ <? _); [discriminate|]. destruct (_ =? 0); [discriminate|].
+  destruct (parse_softfork_arguments d args) as [[[ext prg] env]|].
+  2:{ destruct (d_allow_unknown d); [|discriminate]. intros H; injection H as <- <-.
+      split; [reflexivity|]. exists fa, declared. split; [reflexivity|]. split; [exact Eu|]. intros _; reflexivity. }
+  destruct (_ && _)%bool; [discriminate|].
+  match goal with |- context [ev ?G ?C prg env] => destruct (ev G C prg env) as [[c1 v0]|]; cbn [bind]; [|discriminate] end.
+  destruct (chk _ _ _); cbn [bind]; [|discriminate].
+  unfold cost_exempt. cbn [g_opset g_expected].
+  destruct (negb (opset_eqb ext OsPreHardFork) && _)%bool eqn:Ex; [discriminate|].
+  intros H; injection H as <- <-. split; [reflexivity|]. exists fa, declared. split; [reflexivity|]. split; [exact Eu|].
+  intros Hne. destruct ext; try congruence; cbn [opset_eqb negb andb] in Ex; lia.
+Qed.
